@@ -220,6 +220,10 @@ class Evaluator:
             elif v.kind in ("vec", "scalvec") and len(v.comps) == len(t.elts):
                 for e, c in zip(t.elts, v.comps):
                     self.bind(e, SV("scal", [c], summed=v.summed, absd=v.absd))
+            elif v.kind == "cyc" and len(v.comps) == len(t.elts) and getattr(v, "transposed", False):
+                # x, y, z = verts.T: the coordinate columns of the cycle
+                for e, c in zip(t.elts, v.comps):
+                    self.bind(e, SV("cyc", [c], v.summed))
             else:
                 raise NotInFragment("unpack")
         elif isinstance(t, ast.Subscript):
@@ -265,7 +269,12 @@ class Evaluator:
             if key == "np.newaxis":
                 return SV("newaxis")
             if n.attr == "T":
-                return self.ev(n.value)
+                v_ = self.ev(n.value)
+                if v_.kind == "cyc" and len(v_.comps) > 1:
+                    import copy as _cp
+                    v_ = _cp.copy(v_)
+                    v_.transposed = True            # rows are the coordinate columns now (only unpacking looks at this)
+                return v_
             if n.attr == "shape":
                 v_ = self.ev(n.value)
                 if v_.kind == "cyc":
@@ -398,6 +407,11 @@ class Evaluator:
             if iv is not None and iv.kind == "cycidx":
                 k_ = iv.comps[0].const_value()
                 return SV("cyc", [shift_poly(c, int(k_)) for c in base.comps], base.summed)
+        if base.kind == "cyc" and isinstance(sl, ast.Tuple) and all(
+                (isinstance(e_, ast.Slice) and e_.lower is None and e_.upper is None and e_.step is None)
+                or (isinstance(e_, ast.Constant) and (e_.value is None or e_.value is Ellipsis))
+                or (isinstance(e_, ast.Attribute) and e_.attr == "newaxis") for e_ in sl.elts):
+            return base               # v[:, np.newaxis, :]: axes of length one inserted, the rows are the same
         if base.kind == "cyc":
             # v[k]: a row picked at a fixed position of the vertex list - the value depends on where the list starts
             k0 = self._const(sl)
@@ -450,6 +464,30 @@ class Evaluator:
         kw = {k.arg: k.value for k in n.keywords}
         if f in self.hooks:
             return self.hooks[f](self, n)
+        if isinstance(n.func, ast.Name) and getattr(self, "functions", None) and n.func.id in self.functions and getattr(self, "_fdepth", 0) < 2:
+            # a small pure helper of the module (index arithmetic, a wrapper): its single returned expression, parameters bound
+            fdef = self.functions[n.func.id]
+            body = [s_ for s_ in fdef.body if not (isinstance(s_, ast.Expr) and isinstance(s_.value, ast.Constant))]
+            if len(body) == 1 and isinstance(body[0], ast.Return) and body[0].value is not None and not fdef.args.vararg and not fdef.args.kwarg:
+                params = [a.arg for a in fdef.args.args]
+                dflt = dict(zip(params[len(params) - len(fdef.args.defaults):], fdef.args.defaults))
+                bound = {}
+                for p_, a_ in zip(params, args):
+                    bound[p_] = self.ev(a_)
+                for k_, v_ in kw.items():
+                    bound[k_] = self.ev(v_)
+                for p_ in params:
+                    if p_ not in bound and p_ in dflt:
+                        bound[p_] = self.ev(dflt[p_])
+                if all(p_ in bound for p_ in params):
+                    saved = self.env
+                    self.env = dict(bound)
+                    self._fdepth = getattr(self, "_fdepth", 0) + 1
+                    try:
+                        return self.ev(body[0].value)
+                    finally:
+                        self.env = saved
+                        self._fdepth -= 1
         if f in ("np.arange", "range", "numpy.arange") and len(args) == 1:
             return SV("cycidx", [Poly.const(0)])     # the identity index i = 0 .. N-1 of the vertex cycle
         if f in ("np.concatenate", "np.vstack") and len(args) >= 1 and isinstance(args[0], (ast.Tuple, ast.List)) and len(args[0].elts) == 2 \
